@@ -49,17 +49,20 @@ impl std::fmt::Debug for PhasedEval {
     }
 }
 
+// The two 16-bit halves are packed into one word and summed together. For every legal position the sums
+// stay far inside the halves, but a FEN may describe any placement (64 queens, say): the packed sum must
+// then wrap, as it always did in optimised builds, rather than panic in checked builds.
 impl std::ops::Add for PhasedEval {
     type Output = Self;
 
     fn add(self, rhs: Self) -> Self::Output {
-        Self(self.0 + rhs.0)
+        Self(self.0.wrapping_add(rhs.0))
     }
 }
 
 impl std::ops::AddAssign for PhasedEval {
     fn add_assign(&mut self, rhs: Self) {
-        self.0 += rhs.0;
+        self.0 = self.0.wrapping_add(rhs.0);
     }
 }
 
@@ -67,13 +70,13 @@ impl std::ops::Sub for PhasedEval {
     type Output = Self;
 
     fn sub(self, rhs: Self) -> Self::Output {
-        Self(self.0 - rhs.0)
+        Self(self.0.wrapping_sub(rhs.0))
     }
 }
 
 impl std::ops::SubAssign for PhasedEval {
     fn sub_assign(&mut self, rhs: Self) {
-        self.0 -= rhs.0;
+        self.0 = self.0.wrapping_sub(rhs.0);
     }
 }
 
